@@ -1193,21 +1193,45 @@ def vault_case(ctx: fw.Ctx, case: dict, T: list) -> None:
     if out['auth_failed']:
         ctx.fail('the authenticator task died', case, observed=out['auth_failed'], sig='authenticator-died')
     # ---- monitors on what the server and the login handler saw ----
-    # (1) one re-authentication per burst: never more logins than distinct credentials answered with 401 / closed
-    given_creds = {c for _, c, _ in case['init']}
+    # (1) one re-authentication per reason.  The reasons, in the property's terms: a set of credentials that was
+    #     handed out (initially or by a login; serial = order of creation) has ENDED when the server answered 401
+    #     to it / its session got closed under a request, or when a request entered the vault at or after its
+    #     expiration while it was the latest one handed out under its key.  A login without such a reason (or a
+    #     login handler result that gave nothing usable before it) is an alarm.
+    lg0 = out['log']
+    pops = [i for i, e in enumerate(lg0) if e[0] == 'populate']
+    instances: list[dict] = []        # {'serial', 'key', 'cred', 'from': log index}
+    for k, c, _ in case['init']:
+        instances.append({'serial': len(instances) + 1, 'key': k, 'cred': c, 'from': -1})
+    for i in pops:
+        for k, c, _ in lg0[i][1]:
+            instances.append({'serial': len(instances) + 1, 'key': k, 'cred': c, 'from': i})
+    ended_serials = set(n401_creds) | set(out['closed_sessions'])
+    expired_serials = set()
+    for inst in instances:
+        e = exps.get(inst['cred'])
+        if e is None:
+            continue
+        until = min([x['from'] for x in instances if x['key'] == inst['key'] and x['from'] > inst['from']] or [len(lg0)])
+        if any(x[0] == 'expire-enter' and x[2] >= e for x in lg0[max(inst['from'], 0):until]):
+            expired_serials.add(inst['serial'])
+    ctx.count('vault_reauth_reasons', 'rejected-or-closed', len(ended_serials))
+    ctx.count('vault_reauth_reasons', 'expired-at-entry', len(expired_serials - ended_serials))
+    reasons = ended_serials | expired_serials
     barren = 0
     for i, t in enumerate(out['logins']):
         step = case['logins'][i] if i < len(case['logins']) else {'give': []}
         if not step['give'] or all(c in out['closed_at'] for _, c, _, _ in step['give']):
             barren += 1
-    if len(out['logins']) > len(out['closed_sessions']) + barren:
-        ctx.fail('more re-authentications than invalidated credentials', case,
-                 observed={'logins': out['logins'], 'invalidated_sessions': out['closed_sessions']}, sig='extra-reauth')
-    # one login per burst: a burst = one session whose credentials were answered 401 or dropped at their expiry
-    ended = sorted(set(n401_creds) | set(out['closed_sessions']))
-    if single_key and fresh_only and len(out['logins']) != len(ended):
+    if len(out['logins']) > len(reasons) + barren:
+        ctx.fail('more re-authentications than credentials that were rejected or had expired', case,
+                 observed={'logins': out['logins'], 'rejected_or_closed_sessions': sorted(ended_serials),
+                           'expired_when_a_request_entered': sorted(expired_serials), 'barren_logins': barren}, sig='extra-reauth')
+    # exactly one login per reason, when there is one key and every login handed out fresh, unexpired credentials
+    if single_key and fresh_only and len(out['logins']) != len(reasons):
         ctx.fail('a burst of 401s / an expiry of the same credentials did not cause exactly one re-authentication', case,
-                 observed={'logins': out['logins'], 'sessions_answered_401': n401_creds, 'sessions_closed': out['closed_sessions']},
+                 observed={'logins': out['logins'], 'rejected_or_closed_sessions': sorted(ended_serials),
+                           'expired_when_a_request_entered': sorted(expired_serials)},
                  sig='reauth-count')
     # (2) invalidated credentials are not used again (requests that reach the server)
     inval_order = sorted(out['closed_at'], key=lambda c: out['closed_at'][c])
